@@ -19,6 +19,8 @@ def run(tier, seed):
         pairs = pairs[:600]
     for i, ast in enumerate(pairs):
         progs.append({"id": "x2_%d" % i, "ast": ast})
+    for i, ast in enumerate(gen_core.reassign_matrix()):
+        progs.append({"id": "ra_%d" % i, "ast": ast})
     n_exh = len(progs)
     g = gen_core.Gen(rng)
     for i in range(n_random):
@@ -39,7 +41,7 @@ def run(tier, seed):
         "evaluations": s1["runs"] + s2["runs"],
         "distinct_nontrivial": decided,
         "rule": "programs are syntax trees: all binary/unary operator applications over a 12-leaf pool, the "
-                "operator-pair precedence matrix over numeric leaves, and seeded random statement programs; "
+                "operator-pair precedence matrix over numeric leaves, re-assignment of a variable from every shape of expression that reads it, and seeded random statement programs; "
                 "a program counts when the TLA+ machine decides it (ok/err), i.e. it is not discarded as "
                 "unspecified by the guide or out of the exact arithmetic window",
         "programs": len(progs), "exhaustive_programs": n_exh, "random_programs": n_random,
